@@ -55,3 +55,29 @@ Example ex_F13_rejected_first_command :
         (braid_ref ex_progs) false 1 r0 [ Open 0; Add 0 [c_init; c_a]; Add 0 [c_rej]; Commit 0 ])
   = [ ROk; ROkN 2; RErr (EPolicy PERejected); ROkB true ].
 Proof. vm_compute. reflexivity. Qed.
+
+(** two different delivery histories ending with the same committed commands: same heads, cache, hello head *)
+Example ex_convergence :
+  let r1 := ex_run [ Open 0; Add 0 [c_init; c_a; c_b]; Commit 0 ] in
+  let r2 := ex_run [ Open 0; Add 0 [c_init; c_b]; Commit 0; Open 1; Add 1 [c_b; c_a]; Flush 1; Commit 1 ] in
+  rclash afacts r1 = false /\ rclash afacts r2 = false
+  /\ option_map (fun s => nsort (closure (sW s) (sheads s))) (rstore r1) = Some [1; 3; 5]
+  /\ option_map (fun s => nsort (closure (sW s) (sheads s))) (rstore r2) = Some [1; 3; 5]
+  /\ option_map (@sheads afacts) (rstore r1) = option_map (@sheads afacts) (rstore r2)
+  /\ option_map (@scache afacts) (rstore r1) = option_map (@scache afacts) (rstore r2)
+  /\ option_map (hello_head afacts merge_id_ref) (rstore r1) = option_map (hello_head afacts merge_id_ref) (rstore r2)
+  /\ option_map (fun s => length (sheads s)) (rstore r1) = Some 2%nat.
+Proof. vm_compute. repeat split; reflexivity. Qed.
+
+(** an action on the two-head state: collapse, publish, one new head; and a failing one that changes nothing *)
+Example ex_action :
+  let r := ex_run [ Open 0; Add 0 [c_init; c_a; c_b]; Commit 0 ] in
+  let ok := step afacts [] (audit_eval ex_progs) audit_has_policy merge_id_ref dump_effs (braid_ref ex_progs) false 1 r
+              (Action (Build_action false [Build_pubcmd 20 (PBasic 0) 10; Build_pubcmd 21 (PBasic 0) 4] None)) in
+  let bad := step afacts [] (audit_eval ex_progs) audit_has_policy merge_id_ref dump_effs (braid_ref ex_progs) false 1 r
+              (Action (Build_action false [Build_pubcmd 20 (PBasic 0) 10; Build_pubcmd 21 (PBasic 0) 4] (Some 1%nat))) in
+  snd ok = ROk /\ option_map (@sheads afacts) (rstore (fst (fst ok))) = Some [21]
+  /\ snd bad = RErr (EPolicy PERejected)
+  /\ option_map (@sheads afacts) (rstore (fst (fst bad))) = Some [3; 5]
+  /\ option_map (@scache afacts) (rstore (fst (fst bad))) = option_map (@scache afacts) (rstore r).
+Proof. vm_compute. repeat split; reflexivity. Qed.
